@@ -80,9 +80,19 @@ def one_load(task):
     from iodata import api
     rng = random.Random(seed)
     m = Model(rng, natom, digits=min(DIGITS[fmt], 6), mag=mag)
-    if len(task) > 6:
+    if len(task) > 6 and task[6] is not None:
         m.atom_shape = task[6]       # a basis / record shape enumerated by TLC (spec -> code)
-    ev = {"op": "Load", "fmt": fmt, "natom": natom, "mag": mag, "variant": variant, "seed": seed, "load": "ok",
+    if len(task) > 7:
+        # one numeric field takes the value that fills its columns (all nines; digit counts from Layouts!Fill): it touches its
+        # left neighbour.  Coordinates go into the model, the other fields are picked up by the writer (render.fv).
+        rec, field, nines, dec, sign, row = task[7]
+        value = sign * int("9" * nines) / 10.0 ** dec
+        axis = {"x": 0, "y": 1, "z": 2, "zz": 2}.get(field)
+        if axis is not None and rec in FILL_COORD_RECORDS:
+            m.xyz[row % natom, axis] = value
+        else:
+            m.fill = {(rec, field): (row % natom if rec != "cube_axis" else row % 3, value)}
+    ev = {"op": "Load", "fmt": fmt, "natom": natom, "mag": mag if len(task) < 8 else "fill:" + ":".join(str(x) for x in task[7][:5]), "variant": variant, "seed": seed, "load": "ok",
           "rel": {e["key"]: "n/a" for e in tables["loads"][fmt]}}
     tmp = tempfile.mkdtemp(prefix="c03_")
     try:
@@ -117,6 +127,31 @@ def one_load(task):
         return ev
     finally:
         shutil.rmtree(tmp, ignore_errors=True)
+
+
+# records whose numeric fields are driven to their fill values, and the format each belongs to
+FILL_RECORDS = {"sdf_atom": ("sdf", ["x", "y", "z"]), "pdb_atom": ("pdb", ["x", "y", "z", "occ", "b", "resseq"]),
+                "gro_atom": ("gromacs", ["x", "y", "z", "vx", "vy", "vz", "resnum"]), "crd_atom": ("charmm", ["x", "y", "z", "weight", "resno"]),
+                "gamess_coord": ("gamess", ["x", "y", "z"])}
+# Cube files are not driven to their fill values: Gaussian writes (I5,3F12.6) / (I5,4F12.6), but the format is read free-format
+# by every program (and written with other widths by many), so a reader must split on blanks; touching fields are not in its domain.
+FILL_COORD_RECORDS = {"sdf_atom", "pdb_atom", "gro_atom", "crd_atom", "cube_atom", "gamess_coord"}
+
+
+def fill_tasks(run, rng, tables):
+    out = []
+    for rec, (fmt, fields) in FILL_RECORDS.items():
+        ent = tables["fills"][rec]
+        ent = list(ent.values()) if isinstance(ent, dict) else list(ent)
+        for e in ent:
+            if e["field"] not in fields:
+                continue
+            for sign, nines in ((1, e["pos"]), (-1, e["neg"])):
+                for natom in ([3, 12] if run.thorough() else [3]):
+                    for row in (range(natom) if run.thorough() and natom == 3 else [rng.randrange(natom)]):
+                        out.append((fmt, natom, "small", VARIANTS.get(fmt, ["plain"])[0], rng.randint(0, 10**9), tables, None,
+                                    (rec, e["field"], nines, e["dec"], sign, row)))
+    return out
 
 
 def atom_places(a, obj):
@@ -201,6 +236,9 @@ def check(run: Run):
     for i, sh in enumerate(shapes):
         tasks.append(("cp2klog", 1 + i % 12, "small", vs[(i + run.seed) % len(vs)], rng.randint(0, 10**9), tables, (sh["nfun"], sh["recs"])))
     run.notes["atom_shapes_from_model"] = len(shapes)
+    ft = fill_tasks(run, rng, tables)
+    tasks += ft
+    run.notes["fill_value_files"] = len(ft)
     events = [e for e in pmap(one_load, tasks, chunksize=2)]
     skipped = [e for e in events if e["load"].startswith("skip:")]
     events = [e for e in events if not e["load"].startswith("skip:")]
